@@ -175,6 +175,7 @@ def cycle(rep, tracer, work, dat, doc, spec_stream, key, det, mesh=None, xp=None
         kw = {"extra_precision": xp[0], "echo_extra_precision": xp[1]}
     try:
         before = t2dbuild.canon(dat, binary_mesh=False)
+        intended = list(dat._sections)
         tracer.record()
         with core.quiet():
             dat.write(f[0], meshfilename=meshname or '', **kw)
@@ -198,7 +199,7 @@ def cycle(rep, tracer, work, dat, doc, spec_stream, key, det, mesh=None, xp=None
         rep.violation(key + ":raises", "P1_round_trip", det)
         return
     binm = mesh == "binary"
-    want = t2dbuild.canon(dat, binary_mesh=binm)
+    want = t2dbuild.canon(dat, binary_mesh=binm, sections=intended)
     if mesh:
         want["sections"] = [k for k in want["sections"]]
     for n, o in enumerate(objs[1:], 1):
